@@ -30,6 +30,23 @@ pub fn source_spec(run_seed: u64, index: u64) -> PipeSpec {
     if s.cfg.single_file && !s.gen.pansn {
         s.cfg.single_file = false;
     }
+    // one archive in 17 has MANY groups (> 1024 reference segments): per-handle caches and tables
+    // that are sized, bounded or evicted only show their edges there
+    if index % 17 == 13 {
+        s.gen.n_samples = r.range(2, 3) as u32;
+        s.gen.ref_contigs = 3;
+        s.gen.max_len = 44_000;
+        s.gen.tiny_pct = 0;
+        s.gen.shared_small = false;
+        s.gen.dup_pct = 0;
+        s.gen.extra_pct = 0;
+        s.gen.snp_permille = *r.pick(&[1u32, 5]);
+        s.gen.indel_permille = 0;
+        s.cfg.segment_size = 50;
+        s.cfg.k = r.range(10, 12) as u32;
+        s.cfg.queue_capacity = "2G".into();
+        s.cfg.fallback_frac = 0.0;
+    }
     let nfiles = if s.cfg.single_file { 1 } else { s.gen.n_samples as usize };
     s.presentations = vec![crate::gen::fasta::Presentation::plain(); nfiles];
     s
@@ -112,6 +129,10 @@ fn explore(source: PipeSpec, only: Option<ReplaySpec>, index: u64, tier: Tier, w
     r.count("archives", 1);
     r.count(&format!("shape.samples_{}", match source.gen.n_samples { 1 => "1", 2..=50 => "2-50", 51..=100 => "51-100", _ => "101+" }), 1);
     let n = qs.len();
+    let big = source.gen.max_len >= 20_000;
+    if big {
+        r.count("shape.many_groups", 1);
+    }
     let mut first: Option<Violation> = None;
     let mut classes_seen = std::collections::BTreeSet::new();
     let mut judge_hist = |h: &[usize], faults: Option<(u8, u8, u64)>, r: &mut RunReport, first: &mut Option<Violation>| {
@@ -174,7 +195,7 @@ fn explore(source: PipeSpec, only: Option<ReplaySpec>, index: u64, tier: Tier, w
                 judge_hist(&[a, b], None, &mut r, &mut first);
             }
         }
-        if l >= 3 {
+        if l >= 3 && !big {
             for a in 0..n {
                 for b in 0..n {
                     for c in 0..n {
@@ -183,10 +204,10 @@ fn explore(source: PipeSpec, only: Option<ReplaySpec>, index: u64, tier: Tier, w
                 }
             }
         }
-        r.count("histories_len_le3_exhaustive", 1);
+        r.count(if big { "histories_len_le2_exhaustive" } else { "histories_len_le3_exhaustive" }, 1);
         // sampled longer histories, half of them under benign read faults
         let mut rr = Rng::new(arch_id ^ 0x77);
-        let (n4, nlong) = if tier == Tier::Quick { (300, 60) } else { (6000, 600) };
+        let (n4, nlong) = if big { (40, 8) } else if tier == Tier::Quick { (300, 60) } else { (6000, 600) };
         for _ in 0..n4 {
             let h: Vec<usize> = (0..4).map(|_| rr.below(n as u64) as usize).collect();
             judge_hist(&h, None, &mut r, &mut first);
@@ -206,7 +227,7 @@ fn explore(source: PipeSpec, only: Option<ReplaySpec>, index: u64, tier: Tier, w
                 judge_eio(&[a, b], (0, nth), &mut r, &mut first);
             }
         }
-        for _ in 0..if tier == Tier::Quick { 300 } else { 6000 } {
+        for _ in 0..if big { 30 } else if tier == Tier::Quick { 300 } else { 6000 } {
             let len = re.range(3, 6) as usize;
             let h: Vec<usize> = (0..len).map(|_| re.below(n as u64) as usize).collect();
             let at = re.below(len as u64 - 1) as usize;
